@@ -1,4 +1,4 @@
-import FcpptProofs.C08.Order
+import FcpptProofs.C08.Ext
 /-!
 # C08 — property theorems
 
@@ -80,11 +80,55 @@ theorem next_in_subrange {mn sp p : Pos} (hne : mn ≠ []) (hp : InBox mn sp p) 
     (linR mn sp p + 1 = count mn sp → next p mn sp = endPos mn sp) :=
   next_step hne hp
 
+/-- the iteration never leaves `[min, sup]`: from a position of the box, every component of `next_position` lies
+    between `min_i` and `sup_i` (inclusive) — and the only arithmetic of `next_position` is `+ 1` on components of
+    its argument, which are below `sup_i`.  So for representable `min`, `sup` no increment of the loop overflows
+    (`long`) or wraps (`std::size_t`): the `Int` model is exact for the whole iteration. -/
+theorem next_stays_within {mn sp p : Pos} (hne : mn ≠ []) (hp : InBox mn sp p) :
+    Between mn sp (next p mn sp) ∧ Between mn sp (p.map (· + 1)) := by
+  refine ⟨next_between hne hp, ?_⟩
+  clear hne
+  induction mn generalizing sp p with
+  | nil => cases sp <;> cases p <;> simp_all [InBox, Between]
+  | cons m ms ih =>
+    cases sp with
+    | nil => simp [InBox] at hp
+    | cons s ss =>
+      cases p with
+      | nil => simp [InBox] at hp
+      | cons x xs =>
+        simp only [InBox] at hp
+        simp only [List.map_cons, Between]
+        exact ⟨by omega, by omega, ih hp.2.2⟩
+
 /-- the end sentinel is never a position of the range (the loop cannot stop early). -/
 theorem endPos_not_visited {mn sp : Pos} (hl : mn.length = sp.length) (hne : mn ≠ [])
     (h : minLessSup mn sp = true) : ¬ InBox mn sp (endPos mn sp) := by
   simp only [endPos, h, if_true]
   exact endInit_not_inBox hl hne
+
+/-- the fold of `next_position` read literally (`fcppt::algorithm::fold` over the indices `0 … N-2`, reads and
+    writes by index) is the structurally recursive `next` every other theorem is about. -/
+theorem nextFold_eq_next (cur mn sp : Pos) (h1 : mn.length = cur.length) (h2 : sp.length = cur.length) :
+    nextFold cur mn sp = next cur mn sp :=
+  nextFold_eq cur mn sp h1 h2
+
+/-! ## the unsigned instantiation: arithmetic modulo `2^w` -/
+
+/-- with every multiplication and addition reduced modulo `2^w` (C++ unsigned arithmetic), `offset` and
+    `contents` are the reductions of the mathematical values — for **all** positions and sizes. -/
+theorem offsetW_is_wrapped_offset (w : Nat) (p d : List Int) :
+    offsetW w p d = wrap w (offset p d) ∧ contentsW w d = wrap w (contents d) :=
+  ⟨offsetW_eq_wrap w p d, contentsW_eq_wrap w d⟩
+
+/-- hence no wrap-around is ever visible for an in-range position of a grid whose content is representable
+    (which the allocation of the cells forces): the `w`-bit computation is the exact row-major index. -/
+theorem offsetW_exact {w : Nat} {d p : Pos} (h : InRange d p) (hc : contents d ≤ 2 ^ w) :
+    offsetW w p d = lin p d ∧ (contents d < 2 ^ w → contentsW w d = prod d) := by
+  have hl := offset_lt h
+  refine ⟨?_, fun hlt => ?_⟩
+  · rw [offsetW_eq_wrap, wrap_id w hl.1 (by omega), offset_eq_lin p d (inRange_length h).symm]
+  · rw [contentsW_eq_wrap, wrap_id w (by omega) hlt, contents_eq_prod]
 
 /-! ## position ranges -/
 
@@ -120,9 +164,23 @@ theorem size_eq_visited {mn sp : Pos} (hl : mn.length = sp.length) (hne : mn ≠
 theorem visited_none_iff {mn sp : Pos} (hl : mn.length = sp.length) : box mn sp = [] ↔ minLessSup mn sp = false :=
   box_eq_nil_iff hl
 
-/-- `range_dim` when `min < sup`: the component-wise difference, otherwise the null dimension. -/
-theorem rangeDim_spec (mn sp : Pos) :
-    rangeDim mn sp = if minLessSup mn sp then List.zipWith (fun m s => s - m) mn sp else zeros mn := rfl
+/-- `range_dim`: if `min < sup` in every component, component `i` is the (positive) number `sup_i - min_i` of
+    values coordinate `i` takes in the range; otherwise it is the null dimension — in both cases of the static
+    size, and its `contents` is the number of positions visited (`size_eq_visited`). -/
+theorem rangeDim_spec (mn sp : Pos) (hl : mn.length = sp.length) :
+    (rangeDim mn sp).length = mn.length ∧
+    (minLessSup mn sp = true → ∀ i (h1 : i < mn.length) (h2 : i < sp.length),
+        (rangeDim mn sp)[i]? = some (sp[i] - mn[i]) ∧ 0 < sp[i] - mn[i]) ∧
+    (minLessSup mn sp = false → rangeDim mn sp = zeros mn) := by
+  refine ⟨?_, ?_, ?_⟩
+  · unfold rangeDim
+    split <;> simp [hl]
+  · intro h i h1 h2
+    have := (minLessSup_iff mn sp hl).mp h i h1 h2
+    refine ⟨?_, by omega⟩
+    simp [rangeDim, h, List.getElem?_zipWith, List.getElem?_eq_getElem h1, List.getElem?_eq_getElem h2]
+  · intro h
+    simp [rangeDim, h, zeros]
 
 /-- the whole-grid range visits every in-range position exactly once **in storage order**:
     the offsets of the visited positions are 0, 1, …, content-1. -/
@@ -181,6 +239,157 @@ theorem mkFn_cell {α : Type} (d : List Int) (hne : d ≠ []) (hd : NonNeg d) (f
     ∃ g, Grid.mkFn d (fun p => pure (f p)) = .ok g ∧ g.size = d ∧ Denotes g f :=
   ⟨_, (mkFn_denotes d hne hd _ f (fun _ _ => rfl)).1, rfl, (mkFn_denotes d hne hd (fun p => pure (f p)) f (fun _ _ => rfl)).2⟩
 
+/-- **mkRows_cell** — `object(static_row…)`: for rows of equal length `w` the grid has size `(w, number of rows)`,
+    `w * rows` cells, and the cell at `(x, y)` is element `x` of row `y` (row-major: a row is a run of `x`). -/
+theorem mkRows_cell {α : Type} (r1 : List α) (rs : List (List α)) (hw : ∀ r ∈ rs, r.length = r1.length) :
+    (Grid.mkRows r1 rs).size = [(r1.length : Int), ((rs.length + 1 : Nat) : Int)] ∧
+    (Grid.mkRows r1 rs).cells.length = (contents (Grid.mkRows r1 rs).size).toNat ∧
+    ∀ (x y : Nat) (r : List α) (v : α), (r1 :: rs)[y]? = some r → r[x]? = some v →
+      (Grid.mkRows r1 rs).getUnsafe [(x : Int), (y : Int)] = .ok v := by
+  refine ⟨rfl, ?_, fun x y r v => mkRows_getUnsafe r1 rs hw x y r v⟩
+  have hall : ∀ r ∈ r1 :: rs, r.length = r1.length := by
+    intro r hr
+    simp only [List.mem_cons] at hr
+    rcases hr with rfl | h
+    · rfl
+    · exact hw r h
+  have := length_flatten_uniform (r1 :: rs) r1.length hall
+  simp only [Grid.mkRows, contents, List.foldl_cons, List.foldl_nil, Int.one_mul] at this ⊢
+  rw [this, ← Int.natCast_mul, Int.toNat_natCast, List.length_cons, Nat.mul_comm]
+
+/-! ## special members: size and cells travel together -/
+
+/-- **special_members_refine** — every history of copy / move constructions, copy / move assignments (self-assignment
+    included), member and free swaps and default constructions between objects behaves as the same history on whole grid *values*: copying
+    duplicates the value, moving transfers it (the source holds nothing until assigned again), swapping exchanges
+    the objects.  A history is legal for the model exactly when it is for the specification. -/
+theorem special_members_refine {α : Type} (n : Nat) (st : List (Slot α)) (prog : List RegOp) :
+    (regRun n st prog).map (List.map absSlot) = specRun n (st.map absSlot) prog :=
+  regRun_refines n st prog
+
+/-- consequently no history ever produces a grid whose size and cells do not belong together: every object that
+    is not moved-from holds one of the grids the history started with, unchanged, or the empty grid of a default
+    construction. -/
+theorem special_members_preserve_values {α : Type} (n : Nat) (st st' : List (Slot α)) (prog : List RegOp)
+    (h : regRun n st prog = some st') (x : Slot α) (hx : x ∈ st') (hm : x.moved = false) :
+    (∃ y ∈ st, y.moved = false ∧ y.g = x.g) ∨ x.g = Grid.empty n := by
+  have h1 := special_members_refine n st prog
+  rw [h] at h1
+  have hv : some x.g ∈ st'.map absSlot := List.mem_map.mpr ⟨x, hx, by simp [absSlot, hm]⟩
+  rcases specRun_mem n _ _ prog h1.symm x.g hv with this | this
+  · obtain ⟨y, hy, he⟩ := List.mem_map.mp this
+    refine Or.inl ⟨y, hy, ?_⟩
+    unfold absSlot at he
+    cases hmv : y.moved <;> simp_all
+  · exact Or.inr this
+
+/-! ## comparison -/
+
+/-- **eq_spec** — `operator==` on well-formed grids never reads past the second operand's cells and is equality of
+    size **and** cells. -/
+theorem eq_spec {α : Type} [BEq α] [LawfulBEq α] (a b : Grid α)
+    (ha : a.cells.length = (contents a.size).toNat) (hb : b.cells.length = (contents b.size).toNat) :
+    ∃ r, a.eq b = .ok r ∧ (r = true ↔ a = b) ∧ a.ne b = .ok (!r) := by
+  obtain ⟨r, h1, h2⟩ := gridEq_spec a b ha hb
+  exact ⟨r, h1, h2, by simp only [Grid.ne, h1]; rfl⟩
+
+/-- in terms of positions: two grids are `==` iff they have the same size and the same cell at every in-range
+    position (the same flattened cells under a different size are *not* equal). -/
+theorem eq_iff_same_cells {α : Type} [BEq α] [LawfulBEq α] {a b : Grid α} {va vb : Pos → α}
+    (ha : Denotes a va) (hb : Denotes b vb) :
+    ∃ r, a.eq b = .ok r ∧ (r = true ↔ a.size = b.size ∧ ∀ p, InRange a.size p → va p = vb p) := by
+  have la : a.cells.length = (contents a.size).toNat := ((denotes_iff a va).mp ha).2.2.1
+  have lb : b.cells.length = (contents b.size).toNat := ((denotes_iff b vb).mp hb).2.2.1
+  obtain ⟨r, h1, h2⟩ := gridEq_spec a b la lb
+  refine ⟨r, h1, ?_⟩
+  rw [h2, grid_eq_iff, ha.2.2, hb.2.2]
+  constructor
+  · rintro ⟨hs, hc⟩
+    refine ⟨hs, fun p hp => ?_⟩
+    rw [← hs, List.map_inj_left] at hc
+    exact hc p ((mem_box (length_zeros a.size) p).mpr hp)
+  · rintro ⟨hs, hc⟩
+    refine ⟨hs, ?_⟩
+    rw [← hs, List.map_inj_left]
+    exact fun p hp => hc p ((mem_box (length_zeros a.size) p).mp hp)
+
+/-- **lt_spec** — `operator<` is the lexicographic order on (size, cells), sizes and cells themselves compared
+    lexicographically (`x` first, storage order); `>`, `<=`, `>=` are derived from it as documented. -/
+theorem lt_spec (a b : Grid Int) :
+    (a.lt b = true ↔ (LexLt a.size b.size ∨ (a.size = b.size ∧ LexLt a.cells b.cells))) ∧
+    a.gt b = b.lt a ∧ a.le b = !(b.lt a) ∧ a.ge b = !(a.lt b) :=
+  ⟨gridLt_iff a b, rfl, rfl, rfl⟩
+
+/-- `operator<` is a strict total order on grids: irreflexive, transitive, and any two different grids are
+    comparable — so exactly one of `a < b`, `a = b`, `b < a` holds. -/
+theorem lt_strict_total (a b c : Grid Int) :
+    a.lt a = false ∧ (a.lt b = true → b.lt c = true → a.lt c = true) ∧ (a.lt b = true ∨ a = b ∨ b.lt a = true) := by
+  refine ⟨?_, ?_, ?_⟩
+  · cases h : a.lt a
+    · rfl
+    · rcases (gridLt_iff a a).mp h with h | ⟨_, h⟩ <;> exact absurd h (LexLt.irrefl _)
+  · intro h1 h2
+    rw [gridLt_iff] at h1 h2 ⊢
+    rcases h1 with h1 | ⟨e1, h1⟩ <;> rcases h2 with h2 | ⟨e2, h2⟩
+    · exact Or.inl (h1.trans h2)
+    · exact Or.inl (e2 ▸ h1)
+    · exact Or.inl (e1 ▸ h2)
+    · exact Or.inr ⟨e1.trans e2, h1.trans h2⟩
+  · simp only [gridLt_iff, GridLt, grid_eq_iff]
+    rcases LexLt.total a.size b.size with h | h | h
+    · exact Or.inl (Or.inl h)
+    · rcases LexLt.total a.cells b.cells with h' | h' | h'
+      · exact Or.inl (Or.inr ⟨h, h'⟩)
+      · exact Or.inr (Or.inl ⟨h, h'⟩)
+      · exact Or.inr (Or.inr (Or.inr ⟨h.symm, h'⟩))
+    · exact Or.inr (Or.inr (Or.inl h))
+
+/-! ## output -/
+
+/-- **output_spec** — `operator<<` never reads outside the cells and prints the nested form `render`: the last
+    coordinate is the outermost level, every level is `(` its sub-levels separated by `,` `)` (so `()` for an
+    extent 0), the innermost entries are the cells `v (x, …)` with `x` running fastest — the storage order. -/
+theorem output_is_nested_row_major {α : Type} {g : Grid α} {v : Pos → α} (hg : Denotes g v) (sh : α → String) :
+    g.output sh = .ok (render (fun p => sh (v p)) g.size.reverse []) :=
+  output_spec hg sh
+
+/-! ## interpolation -/
+
+/-- **interpolate_spec** — for a position whose integral part `fl` has every neighbour `fl + {0,1}^N` in range
+    (`0 ≤ fl_i`, `fl_i + 1 < size_i`), `interpolate` reads exactly those `2^N` cells (the index arithmetic
+    `value_index + (1 << n)` on the `bit_strings` array addresses the right corners, no read outside the cells) and
+    combines them coordinate by coordinate, the last coordinate outermost: `multilin`. -/
+theorem interpolate_spec {α φ : Type} {g : Grid α} {v : Pos → α} (hg : Denotes g v) (ip : φ → α → α → α)
+    (fl : Pos) (fr : List φ) (frf : Nat → φ) (hfr : ∀ k, k < g.size.length → fr[k]? = some (frf k))
+    (hfl : InRange (g.size.map (· - 1)) fl) :
+    g.interpolate fl fr ip = .ok (multilin v ip fl frf g.size.length []) :=
+  interpolate_eq hg ip fl fr frf hfr hfl
+
+/-- `in_range_dim` for any integer type tests exactly `p_i < d_i` in every component (no test against 0: for the
+    signed instantiation a negative component passes; the grid's own position type is unsigned, see `inRange_spec`). -/
+theorem inRangeDim_spec (d p : Pos) (hl : p.length = d.length) :
+    inRangeDim d p = true ↔ ∀ i (h1 : i < p.length) (h2 : i < d.length), p[i] < d[i] := by
+  induction d generalizing p with
+  | nil => cases p <;> simp_all [inRangeDim]
+  | cons e es ih =>
+    cases p with
+    | nil => simp at hl
+    | cons x xs =>
+      have := ih xs (by simpa using hl)
+      simp only [inRangeDim, List.zip_cons_cons, List.all_cons, Bool.and_eq_true, decide_eq_true_eq] at this ⊢
+      rw [this]
+      constructor
+      · rintro ⟨h0, h⟩ i h1 h2
+        cases i with
+        | zero => simpa using h0
+        | succ i => simpa using h i (by simpa using h1) (by simpa using h2)
+      · intro h
+        refine ⟨?_, fun i h1 h2 => ?_⟩
+        · have := h 0 (by simp) (by simp)
+          rwa [List.getElem_cons_zero, List.getElem_cons_zero] at this
+        · have := h (i + 1) (by simpa using h1) (by simpa using h2)
+          rwa [List.getElem_cons_succ, List.getElem_cons_succ] at this
+
 /-- `in_range` (for an unsigned position: all components ≥ 0) is the in-range predicate. -/
 theorem inRange_spec {α : Type} (g : Grid α) {p : Pos} (hl : p.length = g.size.length) (hp : NonNeg p) :
     g.inRange p = true ↔ InRange g.size p :=
@@ -234,6 +443,31 @@ theorem fill_cell {α : Type} (g : Grid α) (hne : g.size ≠ []) (hd : NonNeg g
     (hlen : g.cells.length = (contents g.size).toNat) (f : Pos → α) :
     ∃ r, g.fill f = .ok r ∧ r.size = g.size ∧ Denotes r f :=
   ⟨_, fill_denotes g hne hd hlen f, rfl, hne, hd, rfl⟩
+
+/-- **fillRange_cell**: assigning `f pos` through every reference of a pos-ref range whose box lies inside the
+    grid changes exactly the cells of the box: afterwards the cell at `p` is `f p` if `min ≤ p < sup` and the
+    old cell otherwise; size unchanged; no write outside the cells. -/
+theorem fillRange_cell {α : Type} {g : Grid α} {v : Pos → α} (hg : Denotes g v) {mn sp : Pos}
+    (hl : mn.length = sp.length) (hne : mn ≠ []) (hin : ∀ p, InBox mn sp p → InRange g.size p) (f : Pos → α) :
+    ∃ r, g.fillRange mn sp f = .ok r ∧ r.size = g.size ∧
+      Denotes r (fun p => if InBox mn sp p then f p else v p) :=
+  ⟨_, fillRange_denotes hg hl hne hin f, rfl, hg.1, hg.2.1, rfl⟩
+
+/-- **fill_reading_own_cells** — aliasing: a fill function that reads the grid being filled, at a cell `σ p` that is
+    the current one or comes later in storage order (a reference to one of the grid's own not yet written cells),
+    sees the original value: the result is `h p (v (σ p))` at every `p`, as if all reads happened before all writes.
+    (Reads of earlier cells see the new values — the model's `fillDep` is sequential, the correspondence op
+    `fillself` exercises first / last / previous / next / current cell.) -/
+theorem fill_reading_own_cells {α : Type} {g : Grid α} {v : Pos → α} (hg : Denotes g v) (σ : Pos → Pos)
+    (h : Pos → α → α)
+    (hσ : ∀ p, InRange g.size p → InRange g.size (σ p) ∧ offset p g.size ≤ offset (σ p) g.size) :
+    ∃ r, g.fillDep (fun g' p => (h p) <$> g'.getUnsafe (σ p)) = .ok r ∧ r.size = g.size ∧
+      Denotes r (fun p => h p (v (σ p))) := by
+  refine ⟨_, fillDep_denotes hg σ h ?_, rfl, hg.1, hg.2.1, rfl⟩
+  intro p hp
+  obtain ⟨h1, h2⟩ := hσ p hp
+  refine ⟨h1, ?_⟩
+  rwa [offset_eq_lin p g.size (inRange_length hp).symm, offset_eq_lin (σ p) g.size (inRange_length h1).symm] at h2
 
 /-- iterating a pos-ref range whose box lies inside the grid yields every position of the box with its cell. -/
 theorem posRefRange_cells {α : Type} {g : Grid α} {v : Pos → α} (hg : Denotes g v) {mn sp : Pos}
@@ -291,6 +525,40 @@ example : posRange [0, 2, 0] [2, 1, 2] = .ok [] ∧ rangeSize [0, 2, 0] [2, 1, 2
 -- without the reset to `min` the carry would leave the box: the model's carry really resets
 example : next [1, 0] [0, 0] [2, 2] = [0, 1] := by decide
 example : Within [1, 0] [3, 2] [3, 2] := by simp [Within]
+-- bilinear "interpolation" that only records its arguments: corners (0,0) (1,0) (0,1) (1,1) of a 2 x 2 grid
+example : (⟨[2, 2], [1, 2, 3, 4]⟩ : Grid Int).interpolate [0, 0] [10, 20] (fun f a b => f + 100 * a + 10000 * b)
+    = .ok (20 + 100 * (10 + 100 * 1 + 10000 * 2) + 10000 * (10 + 100 * 3 + 10000 * 4)) := by decide
+-- the guard is needed: at the right edge the "neighbour" x + 1 is the first cell of the next row
+-- (the guard `fl_i + 1 < size_i` of `interpolate_spec` is a precondition of the code): in a 2 x 3 grid the cells
+-- read for x = 1 are 2,3 and 4,5 — 3 and 5 belong to the rows above; in a 2 x 2 grid the last read is out of bounds
+example : (⟨[2, 3], [1, 2, 3, 4, 5, 6]⟩ : Grid Int).interpolate [1, 0] [0, 0] (fun _ a b => 10 * a + b) = .ok 275 ∧
+    (⟨[2, 2], [1, 2, 3, 4]⟩ : Grid Int).interpolate [1, 0] [0, 0] (fun _ a b => 10 * a + b) = .error .oob := by decide
+-- fill reading the next cell shifts the cells down by one (the last keeps its own); reading the previous cell
+-- propagates the first cell through the whole grid: the sequential semantics is observable
+example : (⟨[3], [10, 20, 30]⟩ : Grid Int).fillDep (fun g p => g.getUnsafe (match p with | [x] => [min (x + 1) 2] | q => q))
+      = .ok ⟨[3], [20, 30, 30]⟩ ∧
+    (⟨[3], [10, 20, 30]⟩ : Grid Int).fillDep (fun g p => g.getUnsafe (match p with | [x] => [max (x - 1) 0] | q => q))
+      = .ok ⟨[3], [10, 10, 10]⟩ := by decide
+-- a 2 x 2 grid and a grid with an empty row dimension
+example : (⟨[2, 2], [1, 2, 3, 4]⟩ : Grid Int).output toString = .ok "((1,2),(3,4))" ∧
+    (⟨[0, 3], []⟩ : Grid Int).output toString = .ok "((),(),())" ∧ (⟨[3, 0], []⟩ : Grid Int).output toString = .ok "()" := by
+  refine ⟨by rfl, by rfl, by rfl⟩
+-- static rows: 3 cells per row, 2 rows; the cell at (x, y) = (2, 1) is the last of the second row
+example : (Grid.mkRows [1, 2, 3] [[4, 5, 6]]).size = [3, 2] ∧ (Grid.mkRows [1, 2, 3] [[4, 5, 6]]).getUnsafe [2, 1] = .ok 6 := by decide
+-- same flattened cells, different shape: not equal, and ordered by size
+example : (⟨[2, 3], [1, 2, 3, 4, 5, 6]⟩ : Grid Int).eq ⟨[3, 2], [1, 2, 3, 4, 5, 6]⟩ = .ok false ∧
+    (⟨[2, 3], [1, 2, 3, 4, 5, 6]⟩ : Grid Int).lt ⟨[3, 2], [1, 2, 3, 4, 5, 6]⟩ = true := by decide
+-- two empty grids of different sizes are different
+example : (⟨[0, 3], []⟩ : Grid Int).eq ⟨[3, 0], []⟩ = .ok false := by decide
+-- a legal history: move 1 into 0, swap 0 and 2, self-move-assign 2; the moved-from object keeps only its size
+example : regRun 1 [⟨(⟨[1], [7]⟩ : Grid Int), false⟩, ⟨⟨[2], [8, 9]⟩, false⟩, ⟨⟨[0], []⟩, false⟩]
+      [.moveAssign 0 1, .swapMember 0 2, .moveAssign 2 2]
+    = some [⟨⟨[0], []⟩, false⟩, ⟨⟨[2], []⟩, true⟩, ⟨⟨[2], [8, 9]⟩, false⟩] := by decide
+-- the literal fold also tests an index whose predecessor did not carry (current position outside the box)
+example : nextFold [0, 2, 0] [0, 0, 0] [2, 2, 2] = [1, 0, 1] ∧ next [0, 2, 0] [0, 0, 0] [2, 2, 2] = [1, 0, 1] := by decide
+-- 2^32 x 2^32 cells: the 64-bit content wraps to 0, the offset of the last position to 2^64 - 1
+example : contentsW 64 [4294967296, 4294967296] = 0 ∧
+    offsetW 64 [4294967295, 4294967295] [4294967296, 4294967296] = 18446744073709551615 := by decide
 example : NonNeg [3, 0, 2] ∧ contents [3, 0, 2] = 0 := by
   refine ⟨?_, by decide⟩; intro x hx; simp at hx; omega
 example : Denotes (⟨[2, 2], [10, 11, 12, 13]⟩ : Grid Int) (fun p => 10 + lin p [2, 2]) := by
